@@ -28,7 +28,7 @@ def run(rep, props, replay=None):
     fd.dtype_monitor(rep, rng, {
         "mean()": lambda d: d.mean().values, "covariance()": lambda d: d.covariance().values,
         "noise_variance(order=1)": lambda d: d.noise_variance(order=1), "noise_variance(order=3)": lambda d: d.noise_variance(order=3),
-        "mean(LP)": lambda d: d.mean(method_smoothing="LP", bandwidth=6.0).values}, "sample estimators")
+        "mean(LP)": lambda d: d.mean(method_smoothing="LP", bandwidth=6.0).values}, "sample estimators", narrow=True)
     # every difference order, large shifts: the estimate must not move (the difference sequences sum to zero)
     xo = np.linspace(0, 1, 16)
     Xo = np.round((fd.smooth_curves(rng, 4, xo) + 0.2 * rng.normal(size=(4, 16))) * 256) / 256
